@@ -5,6 +5,9 @@
 import ChialispModel.Drv.Base
 import ChialispModel.Drv.Conv
 import ChialispModel.Drv.Src
+import ChialispModel.Drv.Step
+import ChialispModel.Drv.Cldb
+import ChialispModel.Drv.CoreDrv
 import ChialispModel.Drv.Reader
 
 def main (args : List String) : IO UInt32 := do
@@ -12,5 +15,8 @@ def main (args : List String) : IO UInt32 := do
   | ["base"] => Drv.Base.run; return 0
   | ["conv"] => Drv.Conv.run; return 0
   | ["src"] => Drv.Src.run; return 0
+  | ["step"] => Drv.Step.run; return 0
+  | ["cldb"] => Drv.Cldb.run; return 0
+  | ["core"] => Drv.CoreDrv.run; return 0
   | ["reader"] => Drv.Reader.run; return 0
   | _ => IO.eprintln s!"modeld: unknown sub-command {args}"; return 2
